@@ -1,6 +1,7 @@
 CONSTANTS
   Kinds = @KINDS@
   MaxDev = @DEV@
+  InitPos = @INITPOS@
 INIT GInit
 NEXT GNext
 INVARIANTS Emit
